@@ -476,11 +476,11 @@ void f_mult_eq () {
 
     case T_MAPPING:
       {
-        mapping_t *m = compose_mapping (argp->u.map, sp->u.map, 0);
+        compose_mapping (argp->u.map, sp->u.map, 0); /* composes the left mapping in place (and returns NULL) */
         if (argp->u.map != sp->u.map)
           {
             pop_stack ();
-            push_mapping (m);
+            push_mapping (argp->u.map);
           }
         assign_svalue (argp, sp);
         break;
